@@ -5,7 +5,7 @@ import random
 
 META = {'explanation': 'integer / string / float rows proved per route on symbolic values and lengths (floats relative to struct); plus a bounded native '
                        'sweep of route agreement over the whole dtype register.'}
-EXTRA_TASKS = ['route_agreement']
+EXTRA_TASKS = ['route_agreement', 'creation_routes_isolation']
 
 
 def _route_case(seed, i):
@@ -93,3 +93,13 @@ def route_agreement(tier='quick', seed=0):
                          'function': 'keyword (length= or in the name), property, format string, pack, Dtype.build, struct codes', 'bound': f'{N} random (dtype, value, length, class) cases',
                          'evaluations': N, 'failures': fails[:6]}],
             'summary': f'{N} cases, {len(fails)} distinct failures'}
+
+
+def creation_routes_isolation(tier='quick', seed=0):
+    """(shared with C04) every creation route of every registered dtype still gives the canonical encoding after an object made by the same route and value has been changed in place (a shared or memoised store would make the routes disagree from then on)"""
+    from props import C04
+    r = C04.dtype_routes_isolation(tier, seed)
+    for b in r.get('bounded', []):
+        b['id'] = b['id'].replace('C04/', 'C02/')
+    r['id'] = 'C02.isolation'
+    return r
